@@ -37,7 +37,7 @@ def all_classes(include_handwritten=False):
     are judged by the relational clauses only (bounded run own-equality); C17 includes them for the state-method obligations."""
     from contracts import fixtures_nodes as fxn
     ks = [k for k in verify.node_class_table() if _has_fields(k) and (include_handwritten or not K.handwritten(k, "__eq__"))]
-    return ks + fxn.DECORATED + fxn.LEGACY_INHERITING + fxn.LEGACY + [fxn.LegacyExtended]
+    return ks + fxn.DECORATED + fxn.LEGACY_INHERITING + fxn.LEGACY + [fxn.LegacyExtended, fxn.LegacyExtendedSub]
 
 
 def _has_fields(k):
